@@ -162,6 +162,9 @@ def _cases(task):
                         ln = ' ' * rnd.randint(1, 3 if i == 0 else 5) + ln
                     if rnd.random() < 0.25:
                         ln = ln + ' '
+                    if i > 0 and rnd.random() < 0.2:
+                        # a tab-indented continuation line (four columns: it can start no block)
+                        ln = rnd.choice(('\t', ' \t', '\t ')) + ln.lstrip(' ')
                 lines.append(ln)
             yield lines
 
@@ -214,8 +217,8 @@ def run(tier, seed, workers):
         'paragraphs of lines of tokens joined by single spaces, lines joined by LF, over a vocabulary '
         'of %d tokens; EXHAUSTIVE for the line shapes (tokens per line) %s; plus %d seeded random '
         'paragraphs of 1-4 lines with 1-4 tokens per line (other shapes than the exhaustive ones), '
-        '30%% of them decorated with 1-3 (first line) / 1-5 (later lines) leading spaces and single '
-        'trailing spaces; %d paragraphs generated, %d pass the inertness precondition and are '
+        '30%% of them decorated with 1-3 (first line) / 1-5 (later lines) leading spaces, single '
+        'trailing spaces and (later lines, 20%%) a leading tab; %d paragraphs generated, %d pass the inertness precondition and are '
         'evaluated (predicate self-tested on %d hand-derived cases). NOT covered exhaustively: two '
         'lines of two tokens each (%d paragraphs; sampled only).'
         % (V, ', '.join(str(s) for s in shapes), n_rand, generated, out['evaluations'], n_self, V ** 4))
